@@ -5,7 +5,7 @@ V=${VERIF_DIR:-/verif}
 BASE=${BASE:-$(git -C /repo rev-parse HEAD)}   # pin the commit: /repo may move on while this runs
 cd $V
 ids=${@:-$(ls seeded)}
-checks=$(python3 -c "import json;print(' '.join(c['property_id'] for c in json.load(open('MANIFEST.json'))['checks']))")
+checks=${CHECKS:-$(python3 -c "import json;print(' '.join(c['property_id'] for c in json.load(open('MANIFEST.json'))['checks']))")}
 mkdir -p /tmp/mutrun
 for id in $ids; do
   W=/tmp/mutrun/w_$id
